@@ -58,8 +58,8 @@ FFILL = T((['mask_func(v)', 'VALID(last_valid)'], 'last_valid', []),
           (['mask_func(v)', '!VALID(last_valid)', '!VALID(value)'], 'NULL', []),
           (['!mask_func(v)'], 'v', ['last_valid = Some(v)']))
 CLIP_BOTH = T((['VALID(v)', '(v < lower)'], 'lower', []),
-              (['VALID(v)', '!(v < lower)', '(upper < v)'], 'upper', []),
-              (['VALID(v)', '!(v < lower)', '!(upper < v)'], 'v', []),
+              (['VALID(v)', '(lower < v)', '(upper < v)'], 'upper', []),   # `<=` folded to `<` (equal at the bound)
+              (['VALID(v)', '(lower < v)', '(v < upper)'], 'v', []),
               (['!VALID(v)'], 'v', []))
 CLIP_LO = T((['VALID(v)', '(v < lower)'], 'lower', []), (['!(VALID(v) && (v < lower))'], 'v', []))
 CLIP_HI = T((['VALID(v)', '(upper < v)'], 'upper', []), (['!(VALID(v) && (upper < v))'], 'v', []))
@@ -114,7 +114,7 @@ def elem_fns(run, F):
             nonnull = [(cs, leaf) for cs, leaf, ef in t if leaf != 'NULL']
             ok = len(nonnull) == 1 and nonnull[0][1] == '((b / a) - 1.)' and \
                 {'VALID(a)', 'VALID(b)'} <= set(nonnull[0][0]) and \
-                any(c in ('(0. != a)', '!(0. == a)', '(a != 0.)') for c in nonnull[0][0])
+                any(c in ('(0. != a)', '(0. != a)', '(a != 0.)') for c in nonnull[0][0])
             run.ob('SEQ.elemfn', fn, 'percentage-change closure #%d' % n, ok, loc(e),
                    'non-null leaf: %s' % [(sorted(c), l) for c, l in nonnull])
     run.floor('SEQ.elemfn', 'vpct_change pair closures', n, 2)
